@@ -403,7 +403,7 @@ func c09Run(raw json.RawMessage) (Case, error) {
 var (
 	c09Fields = []string{"a", "b", "c", "http.status"}
 	c09Ints   = []int64{0, 1, -1, 2, 127, 128, 200, 255, 256, 404, 65535, 65536, 1 << 24, 1<<24 + 1, 1 << 31, 1<<32 - 1, 1 << 32,
-		1 << 53, -(1 << 53), 1<<53 - 1, -200, -129, 1<<63 - 1, -1 << 63, 1<<53 + 1}
+		1 << 53, -(1 << 53), 1<<53 - 1, -200, -129, 1<<63 - 1, -1 << 63, 1<<53 + 1, 1 << 60, -(1 << 62), 1<<60 + 256, 1000000, 123456789012}
 	c09Floats = []float64{0.5, 1.5, -2.5, 200, 404, 0.1, float64(float32(0.1)), 1e21, 9223372036854775808, 18446744073709549568,
 		3.4028234663852886e38, 16777216, 16777217, 1e-7, 200.5, 2, 0.25, 1e6, 123456789}
 	c09Strs = []string{"", "200", "abc", "1.5", "true", "404", "0.1", "ab"}
@@ -429,8 +429,12 @@ func c09PickVal(r *rand.Rand) rvVal {
 
 func c09JSONSafe(sp []c08Field) bool {
 	for _, f := range sp {
-		if f.V.K == "int" && (f.V.I > c09Safe || f.V.I < -c09Safe) {
-			return false
+		// a JSON number is decoded into a float64: only integers a float64 holds exactly are
+		// "the same value" on a JSON path
+		if f.V.K == "int" {
+			if x := float64(f.V.I); math.Abs(x) >= 9.2e18 || int64(x) != f.V.I {
+				return false
+			}
 		}
 	}
 	return true
